@@ -153,8 +153,22 @@ func Run(src io.Reader, o Opts) (obs Obs) {
 			}
 			if j, ok := o.Discard[ord]; ok {
 				p := make([]byte, j)
-				if j > 0 {
-					io.ReadFull(rd, p)
+				for got, empty := 0, 0; got < j; {
+					n, err := rd.Read(p[got:])
+					got += n
+					if err == io.EOF {
+						break // message shorter than j: Discard below is a no-op
+					}
+					if n == 0 {
+						if empty++; empty > 1000000 {
+							err = errSpin
+						}
+					}
+					if err != nil {
+						obs.Err, obs.Partial, obs.PartialOp, obs.InMessage = err, p[:got], byte(h.OpCode), true
+						obs.Spin = err == errSpin
+						return
+					}
 				}
 				if err := rd.Discard(); err != nil {
 					obs.Err = err
